@@ -70,7 +70,32 @@ func checkC08(p *Prog, r *Report) {
 			// forwarder
 			if f.Name() == "Read" && f.Signature.Recv() != nil {
 				if forwardsCount(f, nV, errV) {
-					r.OK("READ", key, at, "forwarder: a Read method that returns the count and error of the underlying Read")
+					// bookkeeping of the count must not be skipped when the read also returned an error
+					skipped := ""
+					if errV != nil {
+						eachInstr(f, func(b *ssa.BasicBlock, _ int, in ssa.Instruction) {
+							uses := false
+							var ops []*ssa.Value
+							for _, op := range in.Operands(ops) {
+								if *op == ssa.Value(nV) {
+									uses = true
+								}
+							}
+							if _, isRet := in.(*ssa.Return); isRet || !uses {
+								return
+							}
+							for _, cd := range condsAt(b) {
+								if bo, ok := cd.V.(*ssa.BinOp); ok && (bo.X == ssa.Value(errV) || bo.Y == ssa.Value(errV)) {
+									skipped = p.posStr(instrPos(in))
+								}
+							}
+						})
+					}
+					if skipped != "" {
+						r.Bad("READ", key, at, "forwarder accounts the count only when the underlying Read returned no error ("+skipped+"): a reader that delivers the last bytes together with io.EOF leaves the bookkeeping behind")
+					} else {
+						r.OK("READ", key, at, "forwarder: a Read method that returns the count and error of the underlying Read and accounts the count whatever the error")
+					}
 					return
 				}
 			}
